@@ -532,11 +532,21 @@ def main():
     chk.cov['discharged'] = dis
     if chk.cov['model_mismatches']:
         chk.harness_error('a solver counterexample did not reproduce with concrete names')
+    from . import extras7
+    for fn_ in ('proxy_postponement',):
+        for pr in getattr(extras7, fn_)()[:2]:
+            chk.violation(pr, {'extras7': fn_})
+        chk.cov['traces_validated_against_impl'] += 1
+    chk.cov.setdefault('bounds', {})['concrete_supplements_round7'] = ['proxy_postponement']
     return chk.finish('one exploration per (model, expression, start object, number of parts); every feasible path of the '
                       'real RREL evaluation ends in one z3 validity query; non-trivial = paths that resolve to an object')
 
 
 def replay(data):
+    if isinstance(data, dict) and data.get('extras7'):
+        from . import extras7
+        pr = getattr(extras7, data['extras7'])()
+        return bool(pr), pr[:2]
     if 'unresolved_navigation' in data:
         pr = unresolved_navigation(*data['unresolved_navigation'])
         return bool(pr), pr
